@@ -196,7 +196,8 @@ def gen(rng, tier):
       ops.append({'op': 'invalid', 'kind': rng.choice(
           ['bad_name', 'bad_module', 'duplicate_other', 'duplicate_equal',
            'unknown_in_list', 'both_lists', 'non_list',
-           'class_with_regmethod_bad_list', 'rejected_then_new']),
+           'class_with_regmethod_bad_list', 'rejected_then_new',
+           'duplicate_after_stray_exit']),
                   'n': i,
                   'target': 'T%d' % rng.randint(0, i)})
     elif r < 0.55:
@@ -455,6 +456,12 @@ def run(case):
         elif kind == 'bad_module':
           gin.external_configurable(fresh_fn('Zq'), name='Zq', module='bad..mod')
         elif kind == 'duplicate_other':
+          gin.external_configurable(fresh_fn(op['target']), name=op['target'],
+                                    module=MOD)
+        elif kind == 'duplicate_after_stray_exit':
+          # leaving interactive mode while not in it (a defensive exit) does not
+          # turn it on
+          gin.exit_interactive_mode()
           gin.external_configurable(fresh_fn(op['target']), name=op['target'],
                                     module=MOD)
         elif kind == 'duplicate_equal':
